@@ -209,18 +209,39 @@ while len(cases) < ncase:
         a, b, c = (component(False, 0) for _ in range(3))
         rep = rng.choice([2, 3, 10, 1.5])
         form = rng.randint(0, 2)
+        expect = None
         if form == 0:
-            s = "(%s nm %s // %s nm %s)%s // %s nm %s" % (num(qty(0, 2)), a, num(qty(0, 2)), b, num(rep), num(qty(0, 2)), c)
+            qa, qb, qc = qty(0, 2), qty(0, 2), qty(0, 2)
+            s = "(%s nm %s // %s nm %s)%s // %s nm %s" % (num(qa), a, num(qb), b, num(rep), num(qc), c)
             sig = "C11:repeated-layer-group"
+            expect = ("thickness", ((qa + qb) * rep + qc) * 1e-9,
+                      lambda: mix_by_volume(mix_by_volume(a, qa, b, qb), (qa + qb) * rep, c, qc))
         elif form == 1:
-            s = "(%s g %s // %s mL %s)%s // %s mg %s" % (num(qty(0, 2)), a, num(qty(0, 2)), b, num(rep), num(qty(0, 2)), c)
+            qa, qb, qc = qty(0, 2), qty(0, 2), qty(0, 2)
+            s = "(%s g %s // %s mL %s)%s // %s mg %s" % (num(qa), a, num(qb), b, num(rep), num(qc), c)
             sig = "C11:repeated-mass-group"
+            mb = qb * 1e-3 * 1000 * formula(b).density
+            expect = ("total_mass", (qa + mb) * rep + qc * 1e-3,
+                      lambda: mix_by_weight(mix_by_weight(a, qa, b, mb), (qa + mb) * rep, c, qc * 1e-3))
         else:
             s = "%s wt%% (%s vol%% %s // %s)@%s // %s" % (num(round(rng.uniform(1, 90), 1)), num(round(rng.uniform(1, 90), 1)), a, b, num(round(rng.uniform(0.5, 9), 2)), c)
             sig = "C11:grouped-density"
         f = add("string-groups", "(InString %s)" % cstr(s), lambda: formula(s), s)
         if isinstance(f, Exception) and not isinstance(f, ValueError):
             fails.append(dict(signature=sig + ":" + type(f).__name__, what="formula(%r) raises %s: %s" % (s, type(f).__name__, f), input=s))
+        if isinstance(f, Formula) and expect is not None:
+            attr, amount, call = expect
+            got = getattr(f, attr, None)
+            if got is None or not rel(got, amount, 1e-12):
+                fails.append(dict(signature=sig + ":" + attr, what="formula(%r).%s = %r, the stated amount is %r" % (s, attr, got, amount), input=s))
+            g = attempt(call)
+            if isinstance(g, Formula):
+                a1, a2 = atom_mass(f.structure, {}), atom_mass(g.structure, {})
+                k0 = next(iter(a1)) if a1 else None
+                if set(a1) != set(a2) or any(not rel(a1[x] * a2[k0], a2[x] * a1[k0], 1e-9) for x in a1) or \
+                        (g.density is not None and (f.density is None or not rel(f.density, g.density, 1e-9))):
+                    fails.append(dict(signature=sig + ":differs-from-call", what="formula(%r) is %s @ %r, the corresponding nested call gives %s @ %r"
+                                      % (s, f, f.density, g, g.density), input=s))
     else:
         # malformed / error paths: missing base component, percentages over 100, volume without density
         form = rng.randint(0, 3)
